@@ -32,7 +32,7 @@ fn main() {
     std::panic::set_hook(Box::new(|_| {}));
     let mut rng = Rng::new(seed);
     let mut out: Vec<Violation> = Vec::new();
-    let (mut systems, mut oks, mut errs, mut finite_oks) = (0usize, 0usize, 0usize, 0usize);
+    let (mut systems, mut oks, mut errs, mut finite_oks, mut round_counts) = (0usize, 0usize, 0usize, 0usize, 0usize);
     let mut classes = std::collections::BTreeMap::new();
     for i in 0..n {
         let sys = match i % 8 {
@@ -75,7 +75,36 @@ fn main() {
                 with_priorities(&mut rng, b)
             }
         };
+        let mut sys = sys;
+        if rng.chance(1, 10) {
+            sys.max_iterations = *rng.pick(&[0usize, 0, 1, 3, 7]);
+        }
         *classes.entry(sys.class).or_insert(0usize) += 1;
+        // bounded work: no level runs more Newton rounds than the configured cap (trace of the real code)
+        if rng.chance(1, 3) {
+            let (_r, events) = ezpz_verif_harness::trace::run_traced(&sys, false);
+            round_counts += 1;
+            let (mut rounds, mut worst) = (0usize, 0usize);
+            for e in &events {
+                match e {
+                    kcl_ezpz::verif_hooks::TraceEvent::SolveInnerStart { .. } => rounds = 0,
+                    kcl_ezpz::verif_hooks::TraceEvent::Iter { .. } => {
+                        rounds += 1;
+                        worst = worst.max(rounds);
+                    }
+                    _ => {}
+                }
+            }
+            if worst > sys.max_iterations {
+                out.push(Violation {
+                    property: "C06",
+                    what: format!("a level ran {worst} Newton rounds although the configured maximum is {}", sys.max_iterations),
+                    signature: "rounds-exceed-cap".into(),
+                    system: Some(sys.clone()),
+                    extra: String::new(),
+                });
+            }
+        }
         for analysis in [false, true] {
             systems += 1;
             match run_plain(&sys, analysis) {
@@ -121,7 +150,7 @@ fn main() {
         }
     }
     println!(
-        "STATS {{\"systems\": {systems}, \"ok\": {oks}, \"err\": {errs}, \"ok_with_finite_input\": {finite_oks}, \"classes\": {:?}, \"violations\": {}}}",
+        "STATS {{\"systems\": {systems}, \"ok\": {oks}, \"err\": {errs}, \"ok_with_finite_input\": {finite_oks}, \"round_count_runs\": {round_counts}, \"classes\": {:?}, \"violations\": {}}}",
         classes,
         out.len()
     );
